@@ -87,6 +87,38 @@ uint32_t cop_serialize_value(const NanoValue *val, uint8_t *buf, uint32_t buf_si
     return pos;
 }
 
+uint64_t cop_serialized_size(const NanoValue *val) {
+    uint64_t size = 1;  /* tag */
+
+    switch (val->tag) {
+    case TAG_INT:
+    case TAG_FLOAT:
+    case TAG_OPAQUE:
+        size += 8;
+        break;
+    case TAG_BOOL:
+        size += 1;
+        break;
+    case TAG_STRING:
+        size += 4 + (val->as.string ? val->as.string->length : 0);
+        break;
+    case TAG_ARRAY: {
+        VmArray *arr = val->as.array;
+        size += 5;
+        if (arr) {
+            for (uint32_t i = 0; i < arr->length; i++) {
+                size += cop_serialized_size(&arr->elements[i]);
+            }
+        }
+        break;
+    }
+    default:
+        break;
+    }
+
+    return size;
+}
+
 uint32_t cop_deserialize_value(const uint8_t *buf, uint32_t buf_size,
                                NanoValue *out, VmHeap *heap) {
     if (buf_size < 1) return 0;
